@@ -47,17 +47,20 @@ CondToks(c) ==
     [] OTHER -> <<TK("id", "currentdate"), TK("tag", ":zone"), S("+0100"), TK("tag", c.t1)>>
                 \o (IF c.t2 = "" THEN <<>> ELSE <<S(c.t2)>>) \o VToks(c.v1) \o VToks(AsList(c.v2))
 
-\* action record: [k, tags (set), v1 (string class or ""), sub (subject), days, secs (number texts)]
+\* action record: [k, tags (set), v1 (string class or ""), sub (subject), days, secs (number texts),
+\*                 lst (a list value: the flags of setflag/addflag/removeflag and of :flags, the :addresses; <<>> = not given)]
 ActToks(a) ==
   CASE a.k = "fileinto" ->
          <<TK("id", "fileinto")>>
          \o (IF ":copy" \in a.tags THEN <<TK("tag", ":copy")>> ELSE <<>>)
          \o (IF ":create" \in a.tags THEN <<TK("tag", ":create")>> ELSE <<>>)
-         \o (IF ":flags" \in a.tags THEN <<TK("tag", ":flags"), S("\\Seen")>> ELSE <<>>)
+         \o (IF ":flags" \in a.tags THEN <<TK("tag", ":flags")>> \o (IF a.lst = <<>> THEN <<S("\\Seen")>> ELSE VToks(<<"l", a.lst>>))
+             ELSE <<>>)
          \o <<S(a.v1)>>
     [] a.k = "redirect" ->
          <<TK("id", "redirect")>> \o (IF ":copy" \in a.tags THEN <<TK("tag", ":copy")>> ELSE <<>>) \o <<S(a.v1)>>
-    [] a.k \in {"reject", "setflag", "addflag", "removeflag"} -> <<TK("id", a.k), S(a.v1)>>
+    [] a.k \in {"reject", "setflag", "addflag", "removeflag"} ->
+         <<TK("id", a.k)>> \o (IF a.lst = <<>> THEN <<S(a.v1)>> ELSE VToks(<<"l", a.lst>>))
     [] a.k = "vacation" ->
          <<TK("id", "vacation")>>
          \o (IF ":subject" \in a.tags THEN <<TK("tag", ":subject"), S(a.sub)>> ELSE <<>>)
@@ -66,6 +69,7 @@ ActToks(a) ==
          \o (IF ":from" \in a.tags THEN <<TK("tag", ":from"), S("me@example.org")>> ELSE <<>>)
          \o (IF ":handle" \in a.tags THEN <<TK("tag", ":handle"), S("h1")>> ELSE <<>>)
          \o (IF ":mime" \in a.tags THEN <<TK("tag", ":mime")>> ELSE <<>>)
+         \o (IF ":addresses" \in a.tags THEN <<TK("tag", ":addresses")>> \o VToks(<<"l", a.lst>>) ELSE <<>>)
          \o <<S(a.v1)>>
     [] OTHER -> <<TK("id", a.k)>>         \* keep, discard, stop
 
@@ -95,7 +99,13 @@ Singles == {[mt |-> m, conds |-> <<c>>, acts |-> <<a>>] : m \in {"anyof", "allof
 Doubles == {[mt |-> "allof", conds |-> <<c1, c2>>, acts |-> <<a1, a2>>] :
                c1 \in Conds, c2 \in {c \in Conds : c.k \in {"true", "exists", "header"} /\ ~c.neg},
                a1 \in {a \in Acts : a.k \in {"fileinto", "keep", "addflag"}}, a2 \in {a \in Acts : a.k \in {"stop", "redirect"}}}
-Init == def \in Singles \cup (IF Pairs THEN Doubles ELSE {})
+\* a condition (an action) given twice, also as the last one: the definition is legal and every copy is written
+Repeats == {[mt |-> "anyof", conds |-> <<c1, c2, c1>>, acts |-> <<a1, a2, a1>>] :
+              c1 \in {c \in Conds : c.k \in {"header", "exists", "size", "true"}},
+              c2 \in {c \in Conds : c.k = "false"},
+              a1 \in {a \in Acts : a.k \in {"addflag", "keep"} /\ a.lst = <<>>},
+              a2 \in {a \in Acts : a.k = "discard"}}
+Init == def \in Singles \cup (IF Pairs THEN Doubles ELSE {}) \cup Repeats
 Next == UNCHANGED def
 Spec == Init /\ [][Next]_def
 
